@@ -44,10 +44,12 @@ theorem mem_isort (q : ℕ) (l : List ℕ) : q ∈ isort l ↔ q ∈ l := by
   | nil => simp [isort]
   | cons x xs ih => simp [isort, mem_insertNat, ih]
 
-/-- the scheduler's view of a gate (`Instruction.__init__` sorts targets and controls) -/
-def insOf (g : Gate) : Sched.Ins := ⟨g.name.toString, isort g.targets, isort g.controls, 1⟩
+/-- the scheduler's view of a gate (`Instruction.__init__` sorts targets and controls); `w` says which
+names the module lists as self-commuting (`fun _ => true` when it has no list) -/
+def insOf (w : String → Bool) (g : Gate) : Sched.Ins :=
+  ⟨g.name.toString, isort g.targets, isort g.controls, 1, w g.name.toString⟩
 
-theorem mem_used_insOf (g : Gate) (q : ℕ) : q ∈ (insOf g).used ↔ q ∈ g.qubits := by
+theorem mem_used_insOf (w : String → Bool) (g : Gate) (q : ℕ) : q ∈ (insOf w g).used ↔ q ∈ g.qubits := by
   rw [mem_used]
   simp only [insOf, mem_isort, Gate.qubits, List.mem_append]
   exact Or.comm
@@ -79,10 +81,10 @@ def wfG (N : ℕ) (g : Gate) : Bool :=
   | some m => g.qubits.length == m && decide g.qubits.Nodup && g.qubits.all (fun q => decide (q < N))
   | none => false
 
-variable {N : ℕ} (ρ : ℕ → ℝ)
+variable {N : ℕ} (ρ : ℕ → ℝ) (w : String → Bool)
 
 theorem wfG_sem (g : Gate) (h : wfG N g = true) :
-    ∃ A, semD N ρ g = some A ∧ SupportedOn A (usedSet N (insOf g)) := by
+    ∃ A, semD N ρ g = some A ∧ SupportedOn A (usedSet N (insOf w g)) := by
   unfold wfG at h
   cases ha : arityOf g.name with
   | none => rw [ha] at h; cases h
@@ -93,22 +95,22 @@ theorem wfG_sem (g : Gate) (h : wfG N g = true) :
     obtain ⟨U, hU⟩ := compactC_arity g.name m ha (g.arg.eval ρ)
     refine ⟨_, semD_of N ρ g m U hU hm hn hr, SupportedOn.embed _ _ ?_⟩
     rintro _ ⟨i, rfl⟩
-    show ((tgL N g.qubits m hm hn hr).f i).val ∈ (insOf g).used
+    show ((tgL N g.qubits m hm hn hr).f i).val ∈ (insOf w g).used
     rw [mem_used_insOf]
     exact List.getElem_mem _
 
 def dfltGate : Gate := ⟨.IDLE, [], [], {}⟩
 
 /-- **the decidable side condition** -/
-def safeComm (N : ℕ) (gs : List Gate) : Bool :=
+def safeComm (w : String → Bool) (N : ℕ) (gs : List Gate) : Bool :=
   gs.all (wfG N) &&
   (List.range gs.length).all fun j => (List.range j).all fun i =>
-    !(share (insOf (gs.getD i dfltGate)) (insOf (gs.getD j dfltGate)) &&
-      commRules (insOf (gs.getD j dfltGate)) (insOf (gs.getD i dfltGate))) ||
+    !(share (insOf w (gs.getD i dfltGate)) (insOf w (gs.getD j dfltGate)) &&
+      commRules (insOf w (gs.getD j dfltGate)) (insOf w (gs.getD i dfltGate))) ||
     safePair (gs.getD i dfltGate) (gs.getD j dfltGate)
 
 theorem getIns_map_insOf (gs : List Gate) {i : ℕ} (hi : i < gs.length) :
-    getIns (gs.map insOf) i = insOf (gs.getD i dfltGate) := by
+    getIns (gs.map (insOf w)) i = insOf w (gs.getD i dfltGate) := by
   simp [getIns, List.getD_eq_getElem?_getD, hi]
 
 theorem getD_mem (gs : List Gate) {i : ℕ} (hi : i < gs.length) : gs.getD i dfltGate ∈ gs := by
@@ -149,45 +151,45 @@ theorem cyclesGen_prod_rev {M : Type*} [Monoid M] (alap allowPerm : Bool) (ns : 
 
 /-- **The scheduled circuit denotes the same operator** — no matrix hypothesis. -/
 theorem schedule_den_safe (alap allowPerm : Bool) (gs : List Gate) (O2 : ℕ → List ℕ → List ℕ)
-    (hO : ∀ r l, (O2 r l).Perm l) (hs : safeComm N gs = true) :
-    denG N ρ (((cyclesGen alap allowPerm (gs.map insOf) O2).flatten).map (fun i => gs.getD i dfltGate)) =
+    (hO : ∀ r l, (O2 r l).Perm l) (hs : safeComm w N gs = true) :
+    denG N ρ (((cyclesGen alap allowPerm (gs.map (insOf w)) O2).flatten).map (fun i => gs.getD i dfltGate)) =
       denG N ρ gs := by
   simp only [safeComm, Bool.and_eq_true, List.all_eq_true, List.mem_range, Bool.or_eq_true,
     Bool.not_eq_true'] at hs
   obtain ⟨hwf, hpairs⟩ := hs
-  have hlen : (gs.map insOf).length = gs.length := by simp
+  have hlen : (gs.map (insOf w)).length = gs.length := by simp
   have hsem : ∀ x ∈ gs, ∃ A, semD N ρ x = some A := fun x hx =>
-    let ⟨A, hA, _⟩ := wfG_sem ρ x (hwf x hx); ⟨A, hA⟩
+    let ⟨A, hA, _⟩ := wfG_sem ρ w x (hwf x hx); ⟨A, hA⟩
   -- the interpretation by position
   let g : ℕ → Matrix (St N) (St N) ℂ := fun i => (semD N ρ (gs.getD i dfltGate)).getD 1
-  have H1 : ∀ i j, i < (gs.map insOf).length → j < (gs.map insOf).length →
-      shareIdx (gs.map insOf) i j = false → Commute (g i) (g j) := by
+  have H1 : ∀ i j, i < (gs.map (insOf w)).length → j < (gs.map (insOf w)).length →
+      shareIdx (gs.map (insOf w)) i j = false → Commute (g i) (g j) := by
     intro i j hi hj hsh
     rw [hlen] at hi hj
-    obtain ⟨A, hA, sA⟩ := wfG_sem ρ _ (hwf _ (getD_mem gs hi))
-    obtain ⟨B, hB, sB⟩ := wfG_sem ρ _ (hwf _ (getD_mem gs hj))
+    obtain ⟨A, hA, sA⟩ := wfG_sem ρ w _ (hwf _ (getD_mem gs hi))
+    obtain ⟨B, hB, sB⟩ := wfG_sem ρ w _ (hwf _ (getD_mem gs hj))
     simp only [g, hA, hB, Option.getD_some]
-    rw [shareIdx, getIns_map_insOf gs hi, getIns_map_insOf gs hj] at hsh
+    rw [shareIdx, getIns_map_insOf w gs hi, getIns_map_insOf w gs hj] at hsh
     exact commute_of_share_false sA sB hsh
-  have H2 : ∀ i j, i < j → j < (gs.map insOf).length → shareIdx (gs.map insOf) i j = true →
-      commIdx allowPerm (gs.map insOf) j i = true → Commute (g i) (g j) := by
+  have H2 : ∀ i j, i < j → j < (gs.map (insOf w)).length → shareIdx (gs.map (insOf w)) i j = true →
+      commIdx allowPerm (gs.map (insOf w)) j i = true → Commute (g i) (g j) := by
     intro i j hij hj hsh hc
     rw [hlen] at hj
     have hi : i < gs.length := by omega
-    obtain ⟨A, hA, _⟩ := wfG_sem ρ _ (hwf _ (getD_mem gs hi))
-    obtain ⟨B, hB, _⟩ := wfG_sem ρ _ (hwf _ (getD_mem gs hj))
+    obtain ⟨A, hA, _⟩ := wfG_sem ρ w _ (hwf _ (getD_mem gs hi))
+    obtain ⟨B, hB, _⟩ := wfG_sem ρ w _ (hwf _ (getD_mem gs hj))
     simp only [g, hA, hB, Option.getD_some]
-    rw [shareIdx, getIns_map_insOf gs hi, getIns_map_insOf gs hj] at hsh
+    rw [shareIdx, getIns_map_insOf w gs hi, getIns_map_insOf w gs hj] at hsh
     simp only [commIdx, Bool.and_eq_true] at hc
     have hc' := hc.2
-    rw [getIns_map_insOf gs hi, getIns_map_insOf gs hj] at hc'
+    rw [getIns_map_insOf w gs hi, getIns_map_insOf w gs hj] at hc'
     rcases hpairs j hj i hij with h1 | h1
     · rw [hsh, hc'] at h1; cases h1
     · exact safePair_commute ρ _ _ A B hA hB h1
-  have hprod := cyclesGen_prod_rev alap allowPerm (gs.map insOf) g O2 hO H1 H2
+  have hprod := cyclesGen_prod_rev alap allowPerm (gs.map (insOf w)) g O2 hO H1 H2
   -- both sides as products
-  have hperm := cyclesGen_perm alap allowPerm (gs.map insOf) O2 hO
-  have hmem : ∀ x ∈ ((cyclesGen alap allowPerm (gs.map insOf) O2).flatten).map (fun i => gs.getD i dfltGate),
+  have hperm := cyclesGen_perm alap allowPerm (gs.map (insOf w)) O2 hO
+  have hmem : ∀ x ∈ ((cyclesGen alap allowPerm (gs.map (insOf w)) O2).flatten).map (fun i => gs.getD i dfltGate),
       ∃ A, semD N ρ x = some A := by
     intro x hx
     obtain ⟨i, hi, rfl⟩ := List.mem_map.mp hx
